@@ -408,3 +408,11 @@ def refresh_preserves_flavour(ctx):
     from . import c05, c16
     c05.subsequence(ctx)
     c16.secret_constructors(ctx)
+
+
+@rule('C11', 'mlkem-bound-into-tag', configs=('default', 'p256'))
+def mlkem_bound_into_tag(ctx):
+    """'An encapsulation is hybridized (carries ML-KEM ciphertexts bound into the tag)': every ML-KEM ciphertext is absorbed into T
+    on all sides and K2 enters H (C07.binding)."""
+    c07 = __import__('analyses.props.c07', fromlist=['binding'])
+    c07.binding(ctx)
